@@ -15,6 +15,7 @@ import armi.materials.material as matmod
 from armi.utils.units import TRACE_NUMBER_DENSITY
 
 from harness import _build
+from armi.reactor import components as _components
 
 shims.patch(compmod, np=shims.np_shim)
 shims.patch(cmod, np=shims.np_shim, float=shims.float_shim)
@@ -37,6 +38,7 @@ PATTERNS = {
     "shared": {"fuel": ["U235?", "FE"], "clad": ["FE"], "duct": ["FE"]},
     "sparse": {"fuel": ["U235?"], "clad": ["FE=0"], "duct": ["FE=0"]},
 }
+EXTRA_COMPONENTS = {"liner": 0.05, "intercoolant": 0.03}     # FE density of the extra component of an odd member
 TLO, THI = 25.0, 750.0     # deg C, inside the validity range of the material correlations (no range warnings)
 NUCS = ["U235", "U238", "FE", "PU239"]     # PU239 is in the problem but in no block
 
@@ -57,10 +59,16 @@ def heights(n, symbolic_ctx=None):
 class Member:
     """One block of the collection together with the symbols injected into it."""
 
-    def __init__(self, ctx, k, btype, pattern, zeroFlux=True, burn=True, h=None, zeroAt=None, symT=True, fat=False):
+    def __init__(self, ctx, k, btype, pattern, zeroFlux=True, burn=True, h=None, zeroAt=None, symT=True, fat=False,
+                 odd=None):
         self.k = k
-        self.b = b = _build.mk_block(btype, height=10.0 if is_sym(h) else h, intercoolant=False)
+        self.b = b = _build.mk_block(btype, height=10.0 if is_sym(h) else h, intercoolant=(odd == "outer"))
         b.name = "B%04d" % k
+        if odd == "inner":
+            # another pin design: annular fuel around a central liner (one more component, innermost)
+            b.getComponentByName("fuel").setDimension("id", 0.3)
+            b.add(_components.Circle("liner", "HT9", Tinput=25.0, Thot=600, od=0.3, id=0.0, mult=127.0))
+            b.clearCache()
         if fat:
             # a member with a different cross-sectional area (fewer pins, wider duct): weights that should contain the
             # volume must not be confused with height-only weights
@@ -88,6 +96,13 @@ class Member:
         self.T = {}
         for c in b:
             nd = {}
+            if c.name in EXTRA_COMPONENTS:
+                # the additional component of a member with another layout: concrete content and temperature (no inputs
+                # that exist only for some layouts)
+                c.p.numberDensities = {"FE": EXTRA_COMPONENTS[c.name]}
+                self.dens[(c.name, "FE")] = EXTRA_COMPONENTS[c.name]
+                self.T[c.name] = c.temperatureInC
+                continue
             for spec in PATTERNS[pattern].get(c.name, []):
                 nuc = spec.rstrip("?").split("=")[0]
                 if spec.endswith("=0"):
@@ -643,3 +658,65 @@ def cylindrical_component_average_is_area_and_weight_weighted_mean(ctx, n, patte
         ctx.check("all weights zero => N(%s) reported as 0" % nuc, IMPLIES(tot == 0, got == 0))
         ctx.check("N(%s) within [min,max] of the members (or 0 without weight)" % nuc,
                   OR(tot == 0, AND(got >= MIN(*xs) - 1e-12, got <= MAX(*xs) + 1e-12)))
+
+
+# ---------------------------------------------------------------------------------------------------------------
+# component-level averaging is only possible when ALL eligible members have the same component layout; otherwise the
+# documented fall-back is the block-level average ("Number densities will be smeared in representative block")
+
+# AverageBlockCollection._checkBlockSimilarity compares the component flags of each member with those of the
+# reference member with zip(), i.e. only over the common prefix: a member that has the reference layout PLUS further
+# components after it (e.g. a fuel block with an inter-duct coolant around the duct, layout "outer" below) is accepted as
+# similar.  Component-level averaging then raises IndexError when that member comes first and otherwise drops the
+# content of its additional component (plain-Python reproduction in the report).  The "outer" layout instances are
+# switched on when this flag is False.
+KNOWN_DEFECT_similarity_check_compares_only_common_prefix = True
+ODD_LAYOUTS = ("inner",) if KNOWN_DEFECT_similarity_check_compares_only_common_prefix else ("inner", "outer")
+
+
+@harness("C20", bounds="component-level averaging requested (averageByComponent=True) for 3-4 real HexBlocks of which "
+                       "one - at a solver-chosen position first / middle / last, or none - has another component layout "
+                       "(annular fuel around a liner: 4 components instead of 3; thorough also: an additional outer "
+                       "component); concrete pairwise different heights; symbolic flux in [1e-3,1e3], densities in "
+                       "[1e-6,1], component temperatures in [25,750] C; the additional component has concrete content",
+         stubs=STUBS, qtimeout_ms=20000,
+         instances={"quick": [dict(n=3, kind="flux", layout="inner"), dict(n=4, kind="volume", layout="inner")],
+                    "thorough": [dict(n=n, kind=k, layout=l, pattern=p) for n in (3, 4) for k in ("flux", "volume")
+                                 for l in ODD_LAYOUTS for p in ("typical", "shared")]})
+def component_average_only_when_all_members_are_alike(ctx, n, kind, layout, pattern="typical"):
+    hs = heights(n)
+    pos = ctx.choice("oddMember", list(range(n)) + [None])        # which member has the other layout (None: all alike)
+    members = [Member(ctx, k, "fuel", pattern, h=hs[k], burn=False, zeroFlux=False, zeroAt=(),
+                      odd=(layout if k == pos else None)) for k in range(n)]
+    for m in members:
+        m.values(ctx, NUCS)
+    weighted = kind == "flux"
+    col = make_collection(kind, None, byComponent=True)
+    col.extend(m.b for m in members)
+    before = [m.snapshot() for m in members]
+    flags = [[c.p.flags for c in sorted(m.b.getComponents())] for m in members]
+    alike = all(f == flags[0] for f in flags)
+    ctx.check("the chosen member (and only it) has another component layout", alike == (pos is None))
+    rep = col.createRepresentativeBlock()
+    check_unchanged(ctx, members, before, "createRepresentativeBlock (by component requested)")
+    ctx.check("representative is a new object", all(rep is not m.b for m in members))
+    ctx.check("the members count as similar iff they all have the same components in the same order",
+              bool(col._checkBlockSimilarity()) == alike)
+    ws = weights(members, weighted)
+    for nuc in NUCS:
+        xs = [m.x[nuc] for m in members]
+        want = wmean(ws, xs)
+        if ctx.canary and nuc == "U235":
+            want = want * ITE(members[0].flux > 900, 1.01, 1.0)
+        scale = sum(xs) + 1e-30
+        ctx.check_close("representative block: N(%s) = sum(w x)/sum(w) over the members (component by component when "
+                        "all are alike, block-level otherwise)" % nuc, rep.getNumberDensity(nuc), want, scale=scale)
+        ctx.check("N(%s) within [min,max] of the members" % nuc,
+                  AND(rep.getNumberDensity(nuc) >= MIN(*xs) - 1e-12, rep.getNumberDensity(nuc) <= MAX(*xs) + 1e-12))
+    if alike:
+        for rc in rep:
+            for nuc in NUCS:
+                xs = [m.dens.get((rc.name, nuc), 0.0) for m in members]
+                ctx.check_close("all alike: %s N(%s) = sum(w x)/sum(w) of the members' matching component" % (rc.name, nuc),
+                                rc.getNumberDensity(nuc), wmean(ws, xs), scale=sum(xs) + 1e-30)
+    check_nuclide_temperatures(ctx, col, members, ws)
